@@ -9,6 +9,20 @@ AX_R = ('axioms: the three real-number axioms of the Coq standard library (Class
         'sig_forall_dec, FunctionalExtensionality.functional_extensionality_dep) where Reals are used; ')
 
 CHECKS = {
+    'C14': dict(
+        technique='Coq proof over R (lra/nra/field, atan2/acos lemmas of Lib/Trig.v) about E_GD, GD_E, E_tk, tk_uv, basic_cdc_GD, GD_basic_cdc, MT6c_D6 and the system it hands to the solver, all translated from moment_tensor_conversion.py on every run (symbolic numpy arrays)',
+        text='Theorems in coq/Props/C14.v about the definitions regenerated from the current source: lune coordinates are invariant under every '
+             'permutation of the eigenvalues and every positive scaling (zero tensor included), lie in [-pi/6,pi/6]x[-pi/2,pi/2] for all real '
+             'eigenvalues, invert GD_E on the whole open lune including the boundary meridians, put double-couples at (0,0) and isotropic '
+             'sources at the poles; Hudson (u,v) are permutation and scale invariant, lie in |u|<=4/3, |v|<=1 for every non-zero spectrum, '
+             'with double-couple at (0,0), isotropic at (0,+-1), CLVD at (-+1,0); whatever solves the linear system the code passes to the '
+             'solver is the potency tensor D with c_ijkl D_kl = M_ij for all 21 stiffness constants; the opening angle of the '
+             'crack+double-couple map is recovered. Unit tests check single literal cases.',
+        note=AX_R + 'numpy.linalg.eig/eigh and numpy.linalg.solve are external: their contracts are hypotheses (checked on the real routines by '
+             'the oracle run: orthonormality, ordering, reconstruction, for degenerate spectra too); the Poisson-ratio component of the '
+             'crack+double-couple round trip and all floating-point effects (scales 1e-12..1e12, near-isotropic spectra) are judged on the '
+             'implementation only; sorting is modelled by max / min / sum-minus-both.',
+        design='6 C14'),
     'C11': dict(
         technique='Coq proof (nsatz over R) of terms translated from station_angles on every run + list-induction proofs about a hand model of the matrix builders tied by vm_compute correspondence',
         text='Theorems in coq/Props/C11.v: the six coefficients translated from the current source of station_angles, dotted with '
